@@ -158,6 +158,7 @@ func runC11(r *mon.Run) {
 	r.FloorFam("adv-foreign-witness", 20)
 	r.FloorFam("adv-alter", 500)
 	r.FloorFam("adv-alpha-shift", 20)
+	r.FloorFam("adv-degenerate-commitments", 20)
 }
 
 // c11Rejected classifies the rejection of a proof that ought to verify.
@@ -415,6 +416,21 @@ func c11Adversarial(r *mon.Run, key *world.Key, jr *rand.Rand, idx int) {
 	// claimed nu of the old accumulator but signed accumulator of the new one
 	d = refNonrevProof(credA, []int{1}, credA.RevIdx, wA.U, wA.E, rev.Accs[0].Nu, rev.SAccs[cur], ctx, nonce, nil)
 	try("adv-false-statement", "commitments for the old value, signed accumulator of the new index", d, c11Truth{credA, wA.U, wA.E}, false)
+	// degenerate commitments: C_r = C_u = 0 (or N) are not group elements; every reconstructed commitment collapses to 0, so the
+	// prover needs no witness at all. The revoked credential A against the NEW accumulator:
+	for _, fc := range []*big.Int{bi(0), cp(pk.N)} {
+		dis, hid := hiddenOf(credA, []int{1})
+		p := refimpl.NewDProver(pk, credA.C.Signature, dis, hid)
+		ar := refimpl.NewAlphaRandomizer()
+		p.R[credA.RevIdx] = ar
+		nr := refimpl.NewNRProver(pk, wA.U, wA.E, rev.Accs[cur].Nu, rev.SAccs[cur], ar)
+		nr.ForceC = fc
+		p.Extra = nr.Commit()
+		c := refimpl.Challenge(ctx, nonce, p.Commit(), false)
+		dd := p.Respond(c)
+		dd.NonRevocationProof = nr.Respond(c)
+		try("adv-degenerate-commitments", fmt.Sprintf("revoked credential, C_r = C_u = %s against accumulator %d", map[bool]string{true: "0", false: "N"}[fc.Sign() == 0], cur), dd, c11Truth{credA, wA.U, wA.E}, false)
+	}
 	// stale but valid: old witness with its own old accumulator (legitimately accepted; the verifier sees index 0)
 	d = refNonrevProof(credA, []int{1}, credA.RevIdx, wA.U, wA.E, rev.Accs[0].Nu, rev.SAccs[0], ctx, nonce, nil)
 	try("adv-stale-valid", "old witness with its old accumulator", d, c11Truth{credA, wA.U, wA.E}, false)
